@@ -110,22 +110,40 @@ func (f *ledgerFetcher) FetchKeys(ctx context.Context, reqs map[pair]spec.Timest
 	return out, nil
 }
 
+const sevenDays = 7 * 24 * time.Hour
+
+// strictLimit is the lesser of valid_until_ts and seven days after the
+// verifier's clock (the strict validity rule).
+func strictLimit(e entry, clock time.Time) spec.Timestamp {
+	lim := e.ValidUntilTS
+	if cap := spec.AsTimestamp(clock.Add(sevenDays)); cap < lim {
+		lim = cap
+	}
+	return lim
+}
+
 // possiblyValid: an entry under which a signature at ts could be accepted.
-func possiblyValid(e entry, ts spec.Timestamp) bool {
+func possiblyValid(e entry, ts spec.Timestamp, clock time.Time) bool {
 	if e.ExpiredTS != gmsl.PublicKeyNotExpired {
 		return ts < e.ExpiredTS
 	}
-	return ts <= e.ValidUntilTS
+	return ts <= strictLimit(e, clock)
 }
 
 // clearlyValid: an unexpired entry whose validity extends strictly beyond ts.
-func clearlyValid(e entry, ts spec.Timestamp) bool {
-	return e.ExpiredTS == gmsl.PublicKeyNotExpired && ts < e.ValidUntilTS
+func clearlyValid(e entry, ts spec.Timestamp, clock time.Time) bool {
+	return e.ExpiredTS == gmsl.PublicKeyNotExpired && ts < strictLimit(e, clock)
 }
 
-func truthValid(k *world.Key, now time.Time) bool {
-	if k == nil || k.From.After(now) {
+// truthValid: per the ledger the key existed and was not yet expired at t.
+func truthValid(k *world.Key, t time.Time) bool {
+	if k == nil || k.From.After(t) {
 		return false
 	}
-	return k.Current() || now.Before(k.ExpiredAt)
+	return k.Current() || t.Before(k.ExpiredAt)
+}
+
+// truthExpired: per the ledger the key is unknown or was expired at t.
+func truthExpired(k *world.Key, t time.Time) bool {
+	return k == nil || (!k.Current() && !t.Before(k.ExpiredAt))
 }
